@@ -68,6 +68,11 @@ type Fx struct {
 	LemmasUsed map[string]bool
 	nvInclusive bool
 	exitSuffix string
+	autoAnns   map[*LoopInfo]*LoopAnn
+	AutoLoops  map[string]int
+	curFrameVals map[ssa.Value]Val
+	keepDry    *[]*State
+	keepAssume bool
 	exitPos    token.Pos
 	KeyFacts map[*Term]bool // assumptions that came from asserted proof steps
 	stepsActive bool
